@@ -213,14 +213,20 @@ def __resolve_real_class_target(
     *,
     environment: IrEnvironment,
 ) -> Class:
-    for symbol in environment.target_ir:
-        if isinstance(symbol, Class) and target.name == symbol.name:
+    candidates = [
+        symbol
+        for ir in (environment.target_ir, *environment.import_irs.values())
+        for symbol in ir
+        if isinstance(symbol, Class) and target.name == symbol.name
+    ]
+
+    # NOTE Prefer the class defined in the same file as the call's target
+    for symbol in candidates:
+        if symbol.location.defined_in == target.location.defined_in:
             return symbol
 
-    for _, import_ir in environment.import_irs.items():
-        for symbol in import_ir:
-            if isinstance(symbol, Class) and target.name == symbol.name:
-                return symbol
+    if candidates:
+        return candidates[0]
 
     return target
 
